@@ -825,6 +825,37 @@ func vf31CheckHelloBytes(st *vfStats, t vfFataler, b []byte, src string, want *P
 	} else {
 		st.Class("remarshal:different-bytes(order/unknown-extensions)")
 	}
+	// the view is an object with exported fields: after it has been parsed (and marshaled once), a caller changes
+	// fields, clears Raw and marshals again - the bytes then carry the NEW values (parse them back and compare)
+	for round := 0; round < 2; round++ {
+		pub.Raw = nil
+		pub.SessionId = append([]byte{byte(0x51 + round)}, pub.SessionId...)
+		if len(pub.SessionId) > 32 {
+			pub.SessionId = pub.SessionId[:32]
+		}
+		pub.CipherSuites = append([]uint16{uint16(0x1301 + round)}, pub.CipherSuites...)
+		if pub.ServerName != "" {
+			pub.ServerName = fmt.Sprintf("edited%d.%s", round, pub.ServerName)
+			if len(pub.ServerName) > 200 {
+				pub.ServerName = pub.ServerName[:200]
+			}
+		}
+		if len(pub.AlpnProtocols) > 0 {
+			pub.AlpnProtocols = append([]string{fmt.Sprintf("vf-edited-%d", round)}, pub.AlpnProtocols...)
+		}
+		re3, err := pub.Marshal()
+		if err != nil {
+			st.Violation(t, "%s: Marshal after editing fields failed: %v", src, err)
+		}
+		pub3 := UnmarshalClientHello(re3)
+		if pub3 == nil {
+			st.Violation(t, "%s: hello marshaled after editing fields does not parse: %s", src, vfHex(re3))
+		}
+		if d := vf31DiffHello(pub, pub3); d != "" {
+			st.Violation(t, "%s: parse -> edit fields -> clear Raw -> Marshal -> parse (round %d): the bytes do not carry the edited values: %s", src, round, d)
+		}
+	}
+	st.Class("edited-after-parse")
 }
 
 func vf31DiffBytes(got, want []byte) string {
